@@ -335,6 +335,8 @@ func rulesC04(c *Ctx) {
 		c.Pin("cancel by id", roles["by-id"], 1)
 	})
 
+	c.Import("R-C04-7", "cancelling one call disturbs no other: the cancellation notice is a valid message of the protocol version in use, so the peer does not answer it with an error that the transport treats as the end of the session", "C12", "R-C12-7", nil)
+
 	c.Rule("R-C04-6", "an undeliverable notice does not break the session: a failed write marks the writer broken only when the write's own context has not ended and the error is not a per-message rejection", func() { ruleWriteErrGuard(c) })
 
 	c.Rule("R-C04-4", "a late response to an abandoned call is discarded without effect (shared with R-C01-5)", func() { responseArmRule(c) })
@@ -447,6 +449,34 @@ func clauseTestsCtxErr(f *Func, cc *ast.CaseClause) bool {
 
 // requestIDIsCallID: e is &CancelledParams{..., RequestID: <ac>.ID().Raw()}.
 func requestIDIsCallID(f *Func, e ast.Expr, ac types.Object) bool {
+	// through a builder function: helper(…, call, …) whose own CancelledParams literal names its AsyncCall parameter
+	if bc, isCall := ast.Unparen(e).(*ast.CallExpr); isCall {
+		if fn := f.Callee(bc); fn != nil {
+			if g := f.Prog.FuncOf(fn); g != nil {
+				acParam := g.ParamOfNamed(pJ, "AsyncCall")
+				passes := false
+				for i, a := range bc.Args {
+					if f.ObjOf(a) == ac && i < len(g.NonRecvParams()) && g.NonRecvParams()[i] == acParam {
+						passes = true
+					}
+				}
+				if !passes || acParam == nil {
+					return false
+				}
+				found := false
+				ast.Inspect(g.Body, func(n ast.Node) bool {
+					if u, ok := n.(*ast.UnaryExpr); ok && u.Op == token.AND {
+						if _, isLit := u.X.(*ast.CompositeLit); isLit && requestIDIsCallID(g, u, acParam) {
+							found = true
+						}
+					}
+					return true
+				})
+				return found
+			}
+		}
+		return false
+	}
 	u, ok := ast.Unparen(e).(*ast.UnaryExpr)
 	if !ok {
 		return false
